@@ -9,6 +9,11 @@ CHECKS = {
     text="Every call Shroud makes to the line splitter while generating the upstream corpus (50 configurations, plus line-length variants) and generated libraries is observed and judged by an independent oracle of the four clauses; 2e5 (quick) / 5e6 (thorough) synthetic logical lines are driven through the same two methods. Held = no refuting event on those executions.",
     note="Trusted: vf/oracles/lines.py (oracle), Python. Not covered: logical lines outside the fuzz alphabet, identifiers > 63 chars.",
     design="DESIGN.md §2 C13"),
+ "C07": dict(
+    technique="byte comparison of output directories between a reference execution and perturbed executions (hash seed, environment, cwd, stale output directory, in-process histories) + impurity monitor on clock/host/pid/random APIs",
+    text="Real command-line runs in fresh interpreters for every corpus configuration and generated libraries are repeated under PYTHONHASHSEED 1/4242/random, two hostile environments, another current directory with identical absolute paths and a pre-populated output directory; sequences of up to 4 libraries are run through the real entry point in one interpreter and the last library's output is compared with a run alone. Held = every pair byte-identical and no impure API called from repository code.",
+    note="Trusted: Python 3.12, byte comparison. Not covered: other Python versions; histories longer than 4; file systems that reorder directory listings (the monitor shows Shroud lists no directory).",
+    design="DESIGN.md §2 C07"),
 }
 
 NOT_APPLICABLE = []
